@@ -1080,6 +1080,59 @@ func specTunnelOK(h *HostInfo) bool {
 //@   loop 1 invariant ci.messageCounter.Load() >= old(ci.messageCounter.Load()) && !locked(&ci.writeLock)
 
 // =====================================================================
+// C29 — local indexes are unique and never zero
+// =====================================================================
+//
+// generateIndex never returns 0 with a nil error. allocateIndex (pending and
+// main tunnels) and AddRelay (relay namespace) return an index that is
+// non-zero and was in neither index map of its namespace on entry, bind
+// exactly that key, and leave every other key (k arbitrary) of the index maps
+// as it was; on error nothing is bound. By induction over calls the keys of an
+// index map are pairwise distinct non-zero indexes, each bound once.
+
+//@ func crypto/rand.Read
+//@   trusted fills b with random bytes
+//@   assigns elems(b)
+
+//@ func generateIndex
+//@   props C29
+//@   requires l != nil
+//@   ensures[nonzero] implies(result1 == nil, result0 != 0)
+//@   ensures[err]     implies(result1 != nil, result0 == 0)
+//@   assigns nothing
+//@   loop 1 invariant len(b) == 4 && fresh(&b[0])
+//@   loop 1 assigns elems(b)
+
+//@ func (*HandshakeManager).allocateIndex
+//@   props C29
+//@   ghost k uint32
+//@   requires hm != nil && hm.mainHostMap != nil && hm.l != nil && hh != nil && hh.hostinfo != nil && hm.indexes != nil
+//@   ensures[fresh]  implies(result1 == nil, result0 != 0 && !old(has(hm.indexes, result0)) && !old(has(hm.mainHostMap.Indexes, result0)))
+//@   ensures[bound]  implies(result1 == nil, has(hm.indexes, result0) && hm.indexes[result0] == hh && hh.hostinfo.localIndexId == result0)
+//@   ensures[others] implies(result1 != nil || k != result0, has(hm.indexes, k) == old(has(hm.indexes, k)) && hm.indexes[k] == old(hm.indexes[k]))
+//@   ensures[main]   has(hm.mainHostMap.Indexes, k) == old(has(hm.mainHostMap.Indexes, k)) && hm.mainHostMap.Indexes[k] == old(hm.mainHostMap.Indexes[k])
+//@   ensures[err]    implies(result1 != nil, result0 == 0 && hh.hostinfo.localIndexId == old(hh.hostinfo.localIndexId))
+//@   loop 1 invariant has(hm.indexes, k) == old(has(hm.indexes, k)) && hm.indexes[k] == old(hm.indexes[k]) && has(hm.mainHostMap.Indexes, k) == old(has(hm.mainHostMap.Indexes, k)) && hm.mainHostMap.Indexes[k] == old(hm.mainHostMap.Indexes[k]) && hh.hostinfo.localIndexId == old(hh.hostinfo.localIndexId) && same(hm.indexes, old(hm.indexes)) && same(hm.mainHostMap.Indexes, old(hm.mainHostMap.Indexes)) && hm.mainHostMap == old(hm.mainHostMap) && hh.hostinfo == old(hh.hostinfo) && hm.l == old(hm.l)
+
+//@ func (*HostMap).unlockedMakePrimary
+//@   trusted reorders the per-address host lists (Hosts / moreHosts) only; false iff the tunnel is not registered under its index
+//@   ensures result == (hm.Indexes[hostinfo.localIndexId] == hostinfo)
+//@   assigns mapof(hm.Hosts), mapof(hm.moreHosts)
+//@ func (*RelayState).InsertRelay
+//@   trusted records the relay in the tunnel's own relay tables
+//@   assigns nothing
+
+//@ func AddRelay
+//@   props C29
+//@   ghost k uint32
+//@   requires l != nil && relayHostInfo != nil && hm != nil && hm.Relays != nil
+//@   ensures[fresh]  implies(result1 == nil, result0 != 0 && !old(has(hm.Relays, result0)))
+//@   ensures[bound]  implies(result1 == nil, has(hm.Relays, result0) && hm.Relays[result0] == relayHostInfo)
+//@   ensures[others] implies(result1 != nil || k != result0, has(hm.Relays, k) == old(has(hm.Relays, k)) && hm.Relays[k] == old(hm.Relays[k]))
+//@   ensures[err]    implies(result1 != nil, result0 == 0)
+//@   loop 1 invariant has(hm.Relays, k) == old(has(hm.Relays, k)) && hm.Relays[k] == old(hm.Relays[k]) && same(hm.Relays, old(hm.Relays))
+
+// =====================================================================
 // C33 — timer wheel slot arithmetic
 // =====================================================================
 //
